@@ -481,6 +481,27 @@ class Model(object):
         n['ll.%d' % l] = A.ite(isl, A.sub1(ln), ln)
         err = A.or_(err, A.and_(isl, A.eq(ln, A.const(0))))
       errcode = 7
+    elif op == 'list_remove':
+      # list.remove(x): delete the FIRST occurrence, shift the tail, ValueError if absent
+      for l in self.list_ids:
+        isl = A.eq(vals[0], A.const(l))
+        ln = s['ll.%d' % l]
+        slots = [s['ls.%d.%d' % (l, i)] for i in range(self.max_list)]
+        found_before = A.false()
+        newslots = []
+        for i in range(self.max_list):
+          here = A.and_(A.not_(found_before), A.eq(slots[i], vals[1]), A.not_(A.eq(ln, A.const(i))))
+          # position i is valid only if i < len: encode with the chain of "len == k" tests
+          valid = A.or_(*[A.eq(ln, A.const(k)) for k in range(i + 1, self.max_list + 1)])
+          here = A.and_(here, valid)
+          found_before = A.or_(found_before, here)
+          nxt = slots[i + 1] if i + 1 < self.max_list else A.const(0)
+          newslots.append(A.ite(found_before, nxt, slots[i]))
+        for i in range(self.max_list):
+          n['ls.%d.%d' % (l, i)] = A.ite(isl, newslots[i], slots[i])
+        n['ll.%d' % l] = A.ite(A.and_(isl, found_before), A.sub1(ln), ln)
+        err = A.or_(err, A.and_(isl, A.not_(found_before)))
+      errcode = 9
     elif op == 'list_top':
       for l in self.list_ids:
         isl = A.eq(vals[0], A.const(l))
